@@ -1,25 +1,572 @@
-//! C03 — not built yet (stub).
+//! C03 — storage errors leave committed state unchanged or fully applied.
+//!
+//! For a generated history and a target call (commit / add / delete / rollback / compact) a dry
+//! run counts the storage primitives of that call; then the call is repeated on a fresh index
+//! with exactly one primitive (quick) or an ordered pair (thorough) failing *before* or *after*
+//! its effect.  Filesystem backend: hook H1 returns the error; in-memory backend: a wrapping
+//! `Storage` owned by the harness.  Observed after the faulty call: return value, contents seen
+//! by a fresh reader of the same process, contents after reopening from storage, the handle's
+//! queue, and the outcome and contents of a fault-free retry.
+//! Finder (implementation only): Err ⇒ both views = pre, queue unchanged, retry succeeds with the
+//! crash-free result; Ok ⇒ both views = post; always: the stored index opens.
+//! Correspondence (commit): the labelled step the fault hit is sent to the model
+//! (`SL.Protocol.commit`), whose predicted observation must equal the real one.
+use crate::idx;
 use crate::proto::Driver;
 use crate::rng::Rng;
 use crate::summary::Summary;
+use crate::util::{guarded, scratch};
 use crate::{Prop, Tier};
+use searchlite_core::api::{Index, IndexWriter};
+use searchlite_core::storage::verif::{install, uninstall, FsEvent};
+use searchlite_core::storage::{DynFile, InMemoryStorage, Storage, StorageFile};
 use serde_json::{json, Value};
+use std::collections::{BTreeMap, BTreeSet};
+use std::io::{Read, Seek, SeekFrom, Write};
+use std::path::{Path, PathBuf};
+use std::sync::{Arc, Mutex};
 
-pub struct Stub;
-pub static P: Stub = Stub;
+pub struct C03;
+pub static P: C03 = C03;
 
-impl Prop for Stub {
+type Contents = BTreeMap<String, String>;
+
+#[derive(Default)]
+struct Plan {
+  active: bool,
+  counter: usize,
+  fail_at: BTreeSet<usize>,
+  /// (index, op, file kind, after) of every primitive seen while active
+  log: Vec<(usize, String, String, bool)>,
+  fired: Vec<usize>,
+}
+
+fn kind_of(p: &Path) -> String {
+  let n = p.file_name().map(|x| x.to_string_lossy().to_string()).unwrap_or_default();
+  if n == "wal.log" {
+    "wal".into()
+  } else if n == "MANIFEST.json" {
+    "manifest".into()
+  } else if n == "MANIFEST.tmp" {
+    "tmp".into()
+  } else if n.starts_with("seg_") {
+    "seg".into()
+  } else {
+    "dir".into()
+  }
+}
+
+impl Plan {
+  /// returns Err when this primitive is to fail
+  fn visit(&mut self, op: &str, path: &Path, after: bool) -> Result<(), String> {
+    if !self.active {
+      return Ok(());
+    }
+    self.counter += 1;
+    let i = self.counter;
+    self.log.push((i, op.to_string(), kind_of(path), after));
+    if self.fail_at.contains(&i) {
+      self.fired.push(i);
+      return Err(format!("injected fault #{i} ({op} {})", if after { "after" } else { "before" }));
+    }
+    Ok(())
+  }
+}
+
+// ------------------------------------------------------------ in-memory backend with faults
+
+struct FaultyMem {
+  inner: InMemoryStorage,
+  plan: Arc<Mutex<Plan>>,
+}
+
+struct FaultyFile {
+  file: DynFile,
+  path: PathBuf,
+  plan: Arc<Mutex<Plan>>,
+}
+
+fn ioerr(e: String) -> std::io::Error {
+  std::io::Error::new(std::io::ErrorKind::Other, e)
+}
+
+impl Read for FaultyFile {
+  fn read(&mut self, buf: &mut [u8]) -> std::io::Result<usize> {
+    self.file.read(buf)
+  }
+}
+impl Write for FaultyFile {
+  fn write(&mut self, buf: &[u8]) -> std::io::Result<usize> {
+    self.plan.lock().unwrap().visit("write", &self.path, false).map_err(ioerr)?;
+    self.file.write_all(buf)?;
+    self.plan.lock().unwrap().visit("write", &self.path, true).map_err(ioerr)?;
+    Ok(buf.len())
+  }
+  fn flush(&mut self) -> std::io::Result<()> {
+    self.file.flush()
+  }
+}
+impl Seek for FaultyFile {
+  fn seek(&mut self, pos: SeekFrom) -> std::io::Result<u64> {
+    self.file.seek(pos)
+  }
+}
+impl StorageFile for FaultyFile {
+  fn set_len(&mut self, len: u64) -> anyhow::Result<()> {
+    self.plan.lock().unwrap().visit("set_len", &self.path, false).map_err(anyhow::Error::msg)?;
+    self.file.set_len(len)?;
+    self.plan.lock().unwrap().visit("set_len", &self.path, true).map_err(anyhow::Error::msg)?;
+    Ok(())
+  }
+  fn sync_all(&mut self) -> anyhow::Result<()> {
+    self.plan.lock().unwrap().visit("sync", &self.path, false).map_err(anyhow::Error::msg)?;
+    self.file.sync_all()?;
+    self.plan.lock().unwrap().visit("sync", &self.path, true).map_err(anyhow::Error::msg)?;
+    Ok(())
+  }
+}
+
+impl FaultyMem {
+  fn wrap(&self, f: DynFile, path: &Path) -> DynFile {
+    Box::new(FaultyFile { file: f, path: path.to_path_buf(), plan: self.plan.clone() })
+  }
+  fn v(&self, op: &str, path: &Path, after: bool) -> anyhow::Result<()> {
+    self.plan.lock().unwrap().visit(op, path, after).map_err(anyhow::Error::msg)
+  }
+}
+
+impl Storage for FaultyMem {
+  fn root(&self) -> &Path {
+    self.inner.root()
+  }
+  fn ensure_dir(&self, path: &Path) -> anyhow::Result<()> {
+    self.inner.ensure_dir(path)
+  }
+  fn exists(&self, path: &Path) -> bool {
+    self.inner.exists(path)
+  }
+  fn open_read(&self, path: &Path) -> anyhow::Result<DynFile> {
+    self.v("open_read", path, false)?;
+    self.inner.open_read(path)
+  }
+  fn open_write(&self, path: &Path) -> anyhow::Result<DynFile> {
+    self.v("create", path, false)?;
+    let f = self.inner.open_write(path)?;
+    self.v("create", path, true)?;
+    Ok(self.wrap(f, path))
+  }
+  fn open_append(&self, path: &Path) -> anyhow::Result<DynFile> {
+    self.v("open_append", path, false)?;
+    let f = self.inner.open_append(path)?;
+    self.v("open_append", path, true)?;
+    Ok(self.wrap(f, path))
+  }
+  fn read_to_end(&self, path: &Path) -> anyhow::Result<Vec<u8>> {
+    self.v("read", path, false)?;
+    self.inner.read_to_end(path)
+  }
+  fn write_all(&self, path: &Path, data: &[u8]) -> anyhow::Result<()> {
+    self.v("write_all", path, false)?;
+    self.inner.write_all(path, data)?;
+    self.v("write_all", path, true)
+  }
+  fn atomic_write(&self, path: &Path, data: &[u8]) -> anyhow::Result<()> {
+    self.v("atomic_write", path, false)?;
+    self.inner.atomic_write(path, data)?;
+    self.v("atomic_write", path, true)
+  }
+  fn remove(&self, path: &Path) -> anyhow::Result<()> {
+    self.v("remove", path, false)?;
+    self.inner.remove(path)?;
+    self.v("remove", path, true)
+  }
+  fn remove_dir_all(&self, path: &Path) -> anyhow::Result<()> {
+    self.inner.remove_dir_all(path)
+  }
+}
+
+// ------------------------------------------------------------ one run
+
+struct Env {
+  dir: PathBuf,
+  mem: Option<Arc<FaultyMem>>,
+  plan: Arc<Mutex<Plan>>,
+  _scratch: tempfile::TempDir,
+}
+
+fn new_env(mem: bool) -> Env {
+  let sc = scratch();
+  let dir = sc.path().join("idx");
+  let plan = Arc::new(Mutex::new(Plan::default()));
+  if mem {
+    let st = Arc::new(FaultyMem { inner: InMemoryStorage::new(dir.clone()), plan: plan.clone() });
+    Env { dir, mem: Some(st), plan, _scratch: sc }
+  } else {
+    let p2 = plan.clone();
+    install(dir.clone(), Arc::new(move |ev: &FsEvent| {
+      if ev.op == "exists" || ev.op == "mkdir" {
+        return Ok(());
+      }
+      p2.lock().unwrap().visit(ev.op, &ev.path, ev.after).map_err(anyhow::Error::msg)
+    }));
+    Env { dir, mem: None, plan, _scratch: sc }
+  }
+}
+
+impl Drop for Env {
+  fn drop(&mut self) {
+    if self.mem.is_none() {
+      uninstall(&self.dir);
+    }
+  }
+}
+
+impl Env {
+  fn open(&self, create: bool) -> Result<Index, String> {
+    let mut o = idx::opts(&self.dir, self.mem.is_some());
+    o.create_if_missing = create;
+    match &self.mem {
+      Some(st) => Index::open_with_storage(o, st.clone() as Arc<dyn Storage>).map_err(|e| e.to_string()),
+      None => Index::open(o).map_err(|e| e.to_string()),
+    }
+  }
+}
+
+fn bodies(idx: &Index) -> Result<Contents, String> {
+  let l = idx::live(idx)?;
+  Ok(l.into_iter().map(|(k, v)| (k, v["body"].as_str().unwrap_or("").to_string())).collect())
+}
+
+fn do_call(idx: &Index, w: &mut Option<IndexWriter>, c: &Value) -> Result<(), String> {
+  let op = c["op"].as_str().unwrap_or("");
+  if w.is_none() && op != "compact" {
+    *w = Some(idx.writer().map_err(|e| format!("writer: {e}"))?);
+  }
+  match op {
+    "add" => w.as_mut().unwrap().add_document(&idx::doc(&json!({"_id": c["id"], "body": c["body"]}))).map(|_| ()).map_err(|e| e.to_string()),
+    "delete" => w.as_mut().unwrap().delete_document(c["id"].as_str().unwrap_or("")).map_err(|e| e.to_string()),
+    "commit" => w.as_mut().unwrap().commit().map_err(|e| e.to_string()),
+    "rollback" => w.as_mut().unwrap().rollback().map_err(|e| e.to_string()),
+    "compact" => idx.compact().map_err(|e| e.to_string()),
+    _ => Ok(()),
+  }
+}
+
+#[derive(Debug, Clone)]
+struct Obs {
+  ret_ok: bool,
+  err: String,
+  mem: Result<Contents, String>,
+  disk: Result<Contents, String>,
+  queue: Vec<(bool, String)>,
+  retry: Result<(), String>,
+  after_retry: Result<Contents, String>,
+  log: Vec<(usize, String, String, bool)>,
+  fired: Vec<usize>,
+}
+
+/// setup calls fault-free, then the target call under `faults`; `None` when setup fails
+fn run_once(mem: bool, setup: &[Value], target: &Value, faults: &BTreeSet<usize>) -> Result<(Obs, Contents, Vec<(bool, String)>), String> {
+  let env = new_env(mem);
+  let idx = env.open(true)?;
+  let mut w: Option<IndexWriter> = None;
+  for c in setup {
+    do_call(&idx, &mut w, c)?;
+  }
+  if w.is_none() && target["op"] != "compact" {
+    w = Some(idx.writer().map_err(|e| e.to_string())?);
+  }
+  let pre = bodies(&idx)?;
+  let queue_before = w.as_ref().map(|x| x.verif_queue()).unwrap_or_default();
+  {
+    let mut p = env.plan.lock().unwrap();
+    p.active = true;
+    p.counter = 0;
+    p.fail_at = faults.clone();
+  }
+  let r = guarded(|| do_call(&idx, &mut w, target));
+  let (log, fired) = {
+    let mut p = env.plan.lock().unwrap();
+    p.active = false;
+    (p.log.clone(), p.fired.clone())
+  };
+  let (ret_ok, err) = match r {
+    Ok(Ok(())) => (true, String::new()),
+    Ok(Err(e)) => (false, e),
+    Err(p) => (false, format!("PANIC {p}")),
+  };
+  let memv = bodies(&idx);
+  let disk = env.open(false).and_then(|i2| bodies(&i2));
+  let queue = w.as_ref().map(|x| x.verif_queue()).unwrap_or_default();
+  let retry = if ret_ok { Ok(()) } else { do_call(&idx, &mut w, target) };
+  let after_retry = env.open(false).and_then(|i2| bodies(&i2));
+  Ok((Obs { ret_ok, err, mem: memv, disk, queue, retry, after_retry, log, fired }, pre, queue_before))
+}
+
+/// label of the commit step a primitive belongs to (see `SL.Protocol.Step`)
+fn label_commit(log: &[(usize, String, String, bool)], fault_idx: usize, earlier_fault: Option<usize>) -> Option<(String, bool)> {
+  // walk the log up to the faulty primitive, tracking where in the protocol we are
+  let mut in_error = false;
+  let mut wal_syncs = 0;
+  let mut dir_syncs = 0;
+  let mut renames = 0;
+  let mut wal_writes = 0;
+  let mut wal_setlens = 0;
+  let mut label = None;
+  for (i, op, kind, after) in log.iter() {
+    if let Some(e) = earlier_fault {
+      if *i > e && !in_error {
+        in_error = true;
+        wal_syncs = 0;
+        dir_syncs = 0;
+        renames = 0;
+        wal_setlens = 0;
+      }
+    }
+    let l: Option<&str> = match (kind.as_str(), op.as_str()) {
+      ("wal", "sync") => {
+        if in_error {
+          Some("errTruncSync")
+        } else if wal_setlens > 0 {
+          Some("truncSync")
+        } else if wal_writes > 0 {
+          Some("syncMarker")
+        } else {
+          Some("walSync")
+        }
+      }
+      ("wal", "write") => Some("appendMarker"),
+      ("wal", "set_len") => Some(if in_error { "errTruncSetLen" } else { "truncSetLen" }),
+      ("seg", "remove") => Some("cleanup"),
+      ("seg", _) => Some("writeSegment"),
+      ("tmp", _) if op != "rename" => Some(if in_error { "restoreTmp" } else { "storeTmp" }),
+      (_, "rename") => Some(if in_error { "restoreRename" } else { "storeRename" }),
+      ("manifest", "atomic_write") => Some(if in_error { "restoreRename" } else { "storeRename" }),
+      (_, "sync_dir") => {
+        if in_error {
+          Some(if renames == 0 { "restorePreSync" } else { "restoreDirSync" })
+        } else {
+          Some(if renames == 0 { "storePreSync" } else { "storeDirSync" })
+        }
+      }
+      ("manifest", "read") => Some("writeSegment"),
+      _ => None,
+    };
+    if *i == fault_idx {
+      label = l.map(|x| {
+        // multi-primitive steps without observable partial effect count as failing "before"
+        let single = matches!(x, "walSync" | "storePreSync" | "storeRename" | "storeDirSync" | "appendMarker" | "syncMarker" | "truncSetLen" | "truncSync" | "errTruncSetLen" | "errTruncSync" | "restorePreSync" | "restoreRename" | "restoreDirSync");
+        (x.to_string(), if single { *after } else { false })
+      });
+      // storeTmp fails "before" as a step unless it is its last primitive's `after`
+      break;
+    }
+    if *after || op == "read" || op == "open_read" {
+      match (kind.as_str(), op.as_str()) {
+        ("wal", "sync") => wal_syncs += 1,
+        ("wal", "write") => wal_writes += 1,
+        ("wal", "set_len") => wal_setlens += 1,
+        (_, "sync_dir") => dir_syncs += 1,
+        (_, "rename") | ("manifest", "atomic_write") => renames += 1,
+        _ => {}
+      }
+    }
+  }
+  let _ = (wal_syncs, dir_syncs);
+  label
+}
+
+fn classify(c: &Result<Contents, String>, pre: &Contents, post: &Contents) -> String {
+  match c {
+    Err(e) => format!("error: {e}"),
+    Ok(x) if x == pre && x == post => "pre=post".into(),
+    Ok(x) if x == pre => "pre".into(),
+    Ok(x) if x == post => "post".into(),
+    Ok(_) => "other".into(),
+  }
+}
+
+impl Prop for C03 {
   fn id(&self) -> &'static str {
     "C03"
   }
   fn rule(&self) -> &'static str {
-    "stub"
+    "case = (backend filesystem|in-memory, setup calls, target call); quick: EVERY storage primitive of the target call fails once before and once after its effect (exhaustive single faults per case); thorough: additionally every ordered pair of primitives for short histories; each faulty run is one evaluation, non-trivial when the injected fault actually fired; distinct = distinct (case, fault set)"
   }
-  fn count(&self, _tier: Tier) -> usize {
-    0
+  fn count(&self, tier: Tier) -> usize {
+    tier.pick(10, 60)
   }
-  fn gen(&self, _rng: &mut Rng, _tier: Tier, _i: usize) -> Value {
-    json!(null)
+  fn gen(&self, rng: &mut Rng, tier: Tier, i: usize) -> Value {
+    let ids = ["a", "b", "c", "d"];
+    let mut setup = Vec::new();
+    let n = rng.below(5);
+    let mut v = 0;
+    for _ in 0..n {
+      v += 1;
+      setup.push(match rng.below(6) {
+        0 => json!({"op":"commit"}),
+        1 => {
+          let id = *rng.pick(&ids);
+          json!({"op":"delete","id":id})
+        }
+        _ => {
+          let id = *rng.pick(&ids);
+          json!({"op":"add","id":id,"body":format!("v{v}")})
+        }
+      });
+    }
+    let target = match i % 5 {
+      0 | 1 | 2 => {
+        // make sure something is queued and, for some cases, that an earlier segment exists
+        if i % 2 == 0 {
+          setup.insert(0, json!({"op":"add","id":"a","body":"base"}));
+          setup.insert(1, json!({"op":"commit"}));
+        }
+        setup.push(json!({"op":"add","id":"b","body":"queued"}));
+        if rng.chance(1, 2) {
+          setup.push(json!({"op":"delete","id":"a"}));
+        }
+        json!({"op":"commit"})
+      }
+      3 => {
+        setup.push(json!({"op":"add","id":"x","body":"one"}));
+        setup.push(json!({"op":"commit"}));
+        setup.push(json!({"op":"add","id":"y","body":"two"}));
+        setup.push(json!({"op":"commit"}));
+        json!({"op":"compact"})
+      }
+      _ => {
+        setup.push(json!({"op":"add","id":"q","body":"queued"}));
+        rng.pick(&[json!({"op":"rollback"}), json!({"op":"add","id":"n","body":"new"}), json!({"op":"delete","id":"q"})]).clone()
+      }
+    };
+    let pairs = tier == Tier::Thorough && i % 10 == 0;
+    json!({"mem": i % 2 == 1, "setup": setup, "target": target, "pairs": pairs})
   }
-  fn run_case(&self, _drv: &mut Driver, _case: &Value, _s: &mut Summary) {}
+
+  fn run_case(&self, drv: &mut Driver, case: &Value, s: &mut Summary) {
+    let only: Option<Vec<usize>> = case.get("faults").and_then(|f| f.as_array()).map(|a| a.iter().filter_map(|x| x.as_u64().map(|y| y as usize)).collect());
+    let case = if case.get("case").is_some() { &case["case"] } else { case };
+    let mem = case["mem"] == json!(true);
+    let setup = case["setup"].as_array().cloned().unwrap_or_default();
+    let target = case["target"].clone();
+    // dry run: number of primitives, crash-free result
+    let dry = match guarded(|| run_once(mem, &setup, &target, &BTreeSet::new())) {
+      Ok(Ok(x)) => x,
+      other => {
+        s.fail("dry-run", "fault-free run of the history failed", case, json!(format!("{:?}", other.err())));
+        return;
+      }
+    };
+    let (dobs, pre, queue_before) = dry;
+    if !dobs.ret_ok {
+      s.fail("dry-run", "fault-free target call failed", case, json!(dobs.err));
+      return;
+    }
+    let post = match &dobs.disk {
+      Ok(c) => c.clone(),
+      Err(e) => {
+        s.fail("dry-run", "cannot read contents after the fault-free call", case, json!(e));
+        return;
+      }
+    };
+    let n = dobs.log.len();
+    s.count(&format!("target.{}.{}", target["op"].as_str().unwrap_or("?"), if mem { "mem" } else { "fs" }));
+    s.add("primitives", n as u64);
+    let mut fault_sets: Vec<BTreeSet<usize>> = Vec::new();
+    if let Some(o) = only {
+      fault_sets.push(o.into_iter().collect());
+    } else {
+      for i in 1..=n {
+        fault_sets.push([i].into_iter().collect());
+      }
+    }
+    let is_commit = target["op"] == "commit";
+    let mut k = 0;
+    while k < fault_sets.len() {
+      let faults = fault_sets[k].clone();
+      k += 1;
+      let sub = json!({"case": case, "faults": faults.iter().collect::<Vec<_>>()});
+      let r = guarded(|| run_once(mem, &setup, &target, &faults));
+      let (obs, _, _) = match r {
+        Ok(Ok(x)) => x,
+        other => {
+          s.fail("faulty-run.setup", "setup failed in a faulty run", &sub, json!(format!("{:?}", other.err())));
+          continue;
+        }
+      };
+      let fired = !obs.fired.is_empty();
+      s.case(&sub, fired);
+      if !fired {
+        continue;
+      }
+      // thorough: extend single faults to ordered pairs (second fault anywhere after the first,
+      // including the error branch)
+      if case["pairs"] == json!(true) && faults.len() == 1 {
+        let first = *faults.iter().next().unwrap();
+        for j in (first + 1)..=obs.log.len() {
+          fault_sets.push([first, j].into_iter().collect());
+        }
+      }
+      let what = obs.log.iter().filter(|e| obs.fired.contains(&e.0)).map(|e| format!("{}:{}:{}", e.2, e.1, if e.3 { "after" } else { "before" })).collect::<Vec<_>>().join("+");
+      s.count(&format!("fault.{}", what.split('+').next().unwrap_or("?")));
+      let memc = classify(&obs.mem, &pre, &post);
+      let diskc = classify(&obs.disk, &pre, &post);
+      let observed = json!({"ret": if obs.ret_ok { "ok" } else { "err" }, "error": obs.err, "mem": memc, "disk": diskc,
+        "queue_kept": obs.queue == queue_before, "retry": obs.retry.clone().err(), "after_retry": classify(&obs.after_retry, &pre, &post), "fault": what});
+      let single = obs.fired.len() == 1;
+      // ---- finder
+      if obs.err.starts_with("PANIC") {
+        s.fail("fault.panic", "a storage error makes the call panic", &sub, observed.clone());
+      }
+      if diskc.starts_with("error") {
+        s.fail(if single { "fault.unopenable" } else { "double-fault.unopenable" }, "after a storage failure the stored index no longer opens (or refers to missing files)", &sub, observed.clone());
+      } else if single {
+        let is_pre = |c: &str| c == "pre" || c == "pre=post";
+        let is_post = |c: &str| c == "post" || c == "pre=post";
+        if obs.ret_ok {
+          if !(is_post(&memc) && is_post(&diskc)) {
+            s.fail("fault.ok-not-applied", "the call returned success but its effects are not fully applied", &sub, observed.clone());
+          }
+        } else {
+          if !(is_pre(&memc) && is_pre(&diskc)) {
+            s.fail("fault.err-but-changed", "the call returned an error but committed contents changed", &sub, observed.clone());
+          } else if target["op"] != "rollback" && obs.queue != queue_before {
+            s.fail("fault.err-queue-changed", "the call returned an error and the handle's queue changed", &sub, observed.clone());
+          } else if obs.retry.is_err() {
+            s.fail("fault.retry-fails", "after an injected error a fault-free retry fails", &sub, observed.clone());
+          } else if !is_post(&classify(&obs.after_retry, &pre, &post)) {
+            s.fail("fault.retry-wrong", "the retry does not produce the crash-free result", &sub, observed.clone());
+          }
+        }
+      } else if memc == "other" || diskc == "other" {
+        s.fail("double-fault.mixed", "after two storage failures the contents are neither the previous nor the new state", &sub, observed.clone());
+      }
+      // ---- correspondence with the protocol model (commit only)
+      if is_commit && pre != post {
+        let mut labelled = Vec::new();
+        let mut earlier = None;
+        let mut ok = true;
+        for f in obs.fired.iter() {
+          match label_commit(&obs.log, *f, earlier) {
+            Some((st, after)) => labelled.push(json!({"step": st, "after": after})),
+            None => ok = false,
+          }
+          earlier = Some(*f);
+        }
+        if ok {
+          let m = drv.call("C03", json!({"op":"commit","faults":labelled,"repaired":true}));
+          let same = m["ret"] == observed["ret"]
+            && (m["mem"].as_str() == Some(memc.as_str()))
+            && (m["disk"].as_str() == Some(diskc.as_str()) || (diskc.starts_with("error") && m["openable"] == json!(false)))
+            && (m["ret"] == "ok" || m["queue_kept"] == observed["queue_kept"]);
+          if !same {
+            s.disagree("protocol.commit", &sub, json!({"observed": observed, "labels": labelled}), m);
+          }
+        } else {
+          s.count("unlabelled-fault");
+        }
+      }
+    }
+  }
 }
